@@ -15,6 +15,8 @@
      missed             at the end of the run a scheduling whose time has long passed was never awakened
      clock-died         a clock thread is no longer serving after a task raised
      stuck              deadlock / a call that never returned
+   stop(): a tempo clock whose stop() was called keeps serving until its thread ends; from then on nothing of
+   it may wake.  Incoming OSC datagrams are scheduling calls made by the receive thread (sched(0, dispatch)).
 
    Events come from the controlled scheduler (acq/rel/wait/wake/notify/tick) and from the driver's task
    wrappers (call/ret/task_begin/task_end/mkclock/end).  Times are integers in units of 1/1024 (s or beat). *)
@@ -38,7 +40,8 @@ Init0(clockthread) ==
      cur |-> Empty,                                 \* thread -> task awake on it
      blk |-> Empty,                                 \* clock -> what its thread is blocked on
      th2c |-> clockthread,                          \* thread name -> clock name (function)
-     stopped |-> {},
+     stopping |-> {},                               \* tempo clocks whose stop() has been called
+     stopped |-> {},                                \* ... and whose thread has ended (everything cancelled)
      bad |-> "ok"]
 
 (* exact tempo arithmetic; Div flags non-representable results so that they surface as machinery errors *)
@@ -64,6 +67,7 @@ Lin(st, th, call, now) ==
     LET c == call.clock
         base == IF call.inner /\ c # "app" THEN Get(st.cur, th, NoCur).lt ELSE now
     IN
+    IF c \in st.stopped THEN st ELSE       \* a stopped clock refuses (ClockNotRunning)
     CASE call.api = "sched" ->
             LET time == IF IsTempo(c) THEN S2B(st.map[c], base) + call.arg ELSE base + call.arg
                 q == Insert(Without(st.pend[c], call.task), [p |-> time, s |-> st.ctr, t |-> call.task])
@@ -73,6 +77,7 @@ Lin(st, th, call, now) ==
             LET q == Insert(Without(st.pend[c], call.task), [p |-> call.arg, s |-> st.ctr, t |-> call.task])
             IN [st EXCEPT !.pend = Put(st.pend, c, q), !.ctr = st.ctr + 1]
       [] call.api = "clear" -> [st EXCEPT !.pend = Put(st.pend, c, <<>>)]
+      [] call.api = "stop" -> [st EXCEPT !.stopping = st.stopping \cup {c}]
       [] call.api = "tempo" ->
             LET m == st.map[c]
                 beats == S2B(m, base)
@@ -94,7 +99,7 @@ Step(st, e) ==
             LET call == [api |-> e.api, clock |-> c, task |-> e.task, arg |-> e.arg, arg2 |-> e.arg2,
                          inner |-> e.inner, lin |-> FALSE]
                 \* inside a task the main lock is already held: the call takes effect at once
-                now == e.inner
+                now == e.inner \/ e.api = "stop"       \* stop() only starts the stopping thread
                 s1 == IF now THEN Lin(st, th, call, e.now) ELSE st
             IN Chk([s1 EXCEPT !.infl = Put(s1.infl, th, [call EXCEPT !.lin = now])])
       [] e.op = "acq" ->
@@ -148,11 +153,18 @@ Step(st, e) ==
             ELSE Chk(s0)
       [] e.op = "end" ->
             \* e.arg = horizon: everything scheduled at or before it must have been awakened
-            IF \E cc \in DOMAIN st.pend : \E i \in 1..Len(st.pend[cc]) : TimeSecs(st, cc, st.pend[cc][i].p) <= e.arg
+            IF \E cc \in DOMAIN st.pend \ st.stopping : \E i \in 1..Len(st.pend[cc]) : TimeSecs(st, cc, st.pend[cc][i].p) <= e.arg
             THEN R0(st, "missed")
             ELSE IF \E i \in 1..Len(e.dead) : e.dead[i] \notin st.stopped THEN R0(st, "clock-died")
             ELSE IF ~e.users_done THEN R0(st, "stuck")
             ELSE Chk(st)
+      [] e.op = "exit" ->
+            \* a clock thread ends only because its clock was stopped; then everything pending is cancelled
+            LET ck == ClockOf(st, th) IN
+            IF ck = "" THEN R0(st, "ok")
+            ELSE IF ck \notin st.stopping THEN R0(st, "clock-died")
+            ELSE R0([st EXCEPT !.pend = Put(st.pend, ck, <<>>), !.stopped = st.stopped \cup {ck},
+                               !.blk = Put(st.blk, ck, NoBlk)], "ok")
       [] e.op = "abort" -> R0(st, "stuck")
       [] OTHER -> R0(st, "ok")
 =============================================================================
